@@ -345,12 +345,8 @@ func runC04(c *Ctx, w *World, r *Report) {
 						bad = "the path appended is not the path whose bit was tested"
 					}
 					guarded := false
-					for _, cd := range fa.Conds(call.Block()) {
-						if bo, ok := cd.V.(*ssa.BinOp); ok && (bo.Op == token.NEQ && cd.Pol || bo.Op == token.EQL && !cd.Pol) {
-							if k, ok := constInt64(stripConv(bo.Y)); ok && k == 0 && stripConv(bo.X) == rd.Use {
-								guarded = true
-							}
-						}
+					if bitKnownSet(fa.Conds(call.Block()), rd) {
+						guarded = true
 					}
 					if !guarded {
 						bad = "a path is appended without its bit being set"
